@@ -33,6 +33,15 @@ PMsgs(ps, steps, start) ==
   ELSE LET r == PStep(ps, Head(steps), start) IN r.msgs \o PMsgs(r.ps, Tail(steps), start)
 
 ------------------------------------------------------------------------
+(* A request with a start cursor: transcription of resolveStartBlockNum (pipeline/resolve.go) for a cursor on a block that  *)
+(* is not final.  c is the block the cursor designates, j the answer of the cursor resolver (the block itself when it is     *)
+(* still on the chain, else the junction of the fork).  The new stream starts right after the resolved block and, when the   *)
+(* block was forked out, is preceded by an undo signal for the junction (sent by tier1 before the stream is created).         *)
+PResume(c, j) ==
+  IF j.h # c.h THEN [msgs |-> <<[k |-> "undo", b |-> j]>>, start |-> j.h + 1]
+  ELSE [msgs |-> <<>>, start |-> c.h + 1]
+
+------------------------------------------------------------------------
 (* the client of the property: keeps every data message; on an undo signal drops the blocks above the last valid block *)
 ClientStep(held, m) ==
   IF m.k = "data" THEN Append(held, m.b) ELSE SelectSeq(held, LAMBDA x : x.h <= m.b.h)
